@@ -236,6 +236,20 @@ def general_cases(ctx, n_cases, seeds=None):
             psi = dgen.random_state(rng, ops, N, D_total=rng.randint(1, 8), n=n, cplx=cplx)
         except Exception:
             continue
+        # projection penalties on arbitrary normalised states with arbitrary weights: reported energy = <H> + sum_i w_i |<p_i|psi>|^2
+        project, pvecs = None, []
+        if rng.random() < 0.4:
+            try:
+                project = []
+                for _ in range(rng.randint(1, 2)):
+                    pst = dgen.random_state(rng, ops, N, D_total=rng.randint(1, 4), n=n, cplx=cplx)
+                    pst.canonize_(to='first')
+                    wgt = rng.choice([0.37, 3.0, 25.0, 250.0])
+                    project.append((wgt, pst))
+                    pvecs.append((wgt, dgen.dvec(pst, ops)))
+            except Exception:
+                project, pvecs = None, []
+        desc['project'] = [wv for wv, _ in pvecs]
         c = rng.choice([2.0, -3.0, 0.25, 1.5j]) if 'scaled' in prep else 1.0
         if prep == 'scaled-canonical':
             psi.canonize_(to='first')
@@ -247,7 +261,7 @@ def general_cases(ctx, n_cases, seeds=None):
         ctx.count('dmrg-general:' + method + ':' + prep)
         try:
             mt = yastn.Method('1site' if method == '1site' else '2site')
-            it = mps.dmrg_(psi, H, method=mt, max_sweeps=nsw, iterator=True, opts_svd={'D_total': Dcut}, precompute=pre,
+            it = mps.dmrg_(psi, H, project=project, method=mt, max_sweeps=nsw, iterator=True, opts_svd={'D_total': Dcut}, precompute=pre,
                            opts_eigs={'hermitian': True, 'ncv': 4, 'which': 'SR'})
             for k, out in enumerate(it):
                 if method == 'switch':
@@ -266,8 +280,14 @@ def general_cases(ctx, n_cases, seeds=None):
         if not psi.is_canonical(to='first', tol=1e-9):
             ctx.violation('dmrg_ returned a state that is not canonical towards the first site %s' % what, desc)
         e_dense = float(np.real(np.vdot(v, Hd @ v)))
+        if pvecs:
+            what += ' penalties %r' % [wv for wv, _ in pvecs]
+            e_dense += sum(wv * abs(np.vdot(pv, v)) ** 2 for wv, pv in pvecs)
+            Bp = Hd[np.ix_(idx, idx)] + sum(wv * np.outer(pv[idx], pv[idx].conj()) for wv, pv in pvecs)
+            w = np.linalg.eigvalsh(Bp)
+            scale = max(scale, abs(w[-1]))
         if abs(out.energy - e_dense) > 1e-8 * scale:
-            ctx.violation('dmrg_ reports energy %r, the returned state has <H> = %r %s' % (out.energy, e_dense, what), desc)
+            ctx.violation('dmrg_ reports energy %r, the returned state has <H>%s = %r %s' % (out.energy, ' + penalties' if pvecs else '', e_dense, what), desc)
         if min(out.energy, e_dense) < w[0] - 1e-8 * scale:
             ctx.violation('dmrg_ energy %r below the lowest eigenvalue %r of H in the sector %s' % (min(out.energy, e_dense), w[0], what), desc)
 
